@@ -106,6 +106,24 @@ pub fn serialize_value<W: Write + ?Sized>(value: &Value, w: &mut W) -> std::io::
     }
 }
 
+/// Lengths come from the file: never reserve more than this many elements before
+/// the data has actually been read (a corrupt length must end in an error, not in
+/// a capacity overflow or an allocation failure).
+const PREALLOC_LIMIT: usize = 4096;
+
+/// Reads exactly `len` bytes, allocating as they arrive.
+fn read_exact_vec<R: Read + ?Sized>(r: &mut R, len: usize) -> std::io::Result<Vec<u8>> {
+    let mut buf = Vec::with_capacity(len.min(PREALLOC_LIMIT));
+    let read = (&mut *r).take(len as u64).read_to_end(&mut buf)?;
+    if read != len {
+        return Err(std::io::Error::new(
+            std::io::ErrorKind::UnexpectedEof,
+            "failed to fill whole buffer",
+        ));
+    }
+    Ok(buf)
+}
+
 /// Deserializes a Value from bytes.
 ///
 /// # Errors
@@ -136,8 +154,7 @@ pub fn deserialize_value<R: Read + ?Sized>(r: &mut R) -> std::io::Result<Value> 
             let mut len_buf = [0u8; 8];
             r.read_exact(&mut len_buf)?;
             let len = u64::from_le_bytes(len_buf) as usize;
-            let mut str_buf = vec![0u8; len];
-            r.read_exact(&mut str_buf)?;
+            let str_buf = read_exact_vec(r, len)?;
             let s = String::from_utf8(str_buf)
                 .map_err(|e| std::io::Error::new(std::io::ErrorKind::InvalidData, e.to_string()))?;
             Ok(Value::String(ArcStr::from(s)))
@@ -146,8 +163,7 @@ pub fn deserialize_value<R: Read + ?Sized>(r: &mut R) -> std::io::Result<Value> 
             let mut len_buf = [0u8; 8];
             r.read_exact(&mut len_buf)?;
             let len = u64::from_le_bytes(len_buf) as usize;
-            let mut bytes_buf = vec![0u8; len];
-            r.read_exact(&mut bytes_buf)?;
+            let bytes_buf = read_exact_vec(r, len)?;
             Ok(Value::Bytes(Arc::from(bytes_buf)))
         }
         TAG_TIMESTAMP => {
@@ -162,7 +178,7 @@ pub fn deserialize_value<R: Read + ?Sized>(r: &mut R) -> std::io::Result<Value> 
             let mut len_buf = [0u8; 8];
             r.read_exact(&mut len_buf)?;
             let len = u64::from_le_bytes(len_buf) as usize;
-            let mut items = Vec::with_capacity(len);
+            let mut items = Vec::with_capacity(len.min(PREALLOC_LIMIT));
             for _ in 0..len {
                 items.push(deserialize_value(r)?);
             }
@@ -178,8 +194,7 @@ pub fn deserialize_value<R: Read + ?Sized>(r: &mut R) -> std::io::Result<Value> 
                 let mut key_len_buf = [0u8; 8];
                 r.read_exact(&mut key_len_buf)?;
                 let key_len = u64::from_le_bytes(key_len_buf) as usize;
-                let mut key_buf = vec![0u8; key_len];
-                r.read_exact(&mut key_buf)?;
+                let key_buf = read_exact_vec(r, key_len)?;
                 let key_str = String::from_utf8(key_buf).map_err(|e| {
                     std::io::Error::new(std::io::ErrorKind::InvalidData, e.to_string())
                 })?;
@@ -193,7 +208,7 @@ pub fn deserialize_value<R: Read + ?Sized>(r: &mut R) -> std::io::Result<Value> 
             let mut len_buf = [0u8; 8];
             r.read_exact(&mut len_buf)?;
             let len = u64::from_le_bytes(len_buf) as usize;
-            let mut floats = Vec::with_capacity(len);
+            let mut floats = Vec::with_capacity(len.min(PREALLOC_LIMIT));
             let mut buf = [0u8; 4];
             for _ in 0..len {
                 r.read_exact(&mut buf)?;
@@ -254,7 +269,7 @@ pub fn deserialize_row<R: Read + ?Sized>(
         ));
     }
 
-    let mut row = Vec::with_capacity(num_columns);
+    let mut row = Vec::with_capacity(num_columns.min(PREALLOC_LIMIT));
     for _ in 0..num_columns {
         row.push(deserialize_value(r)?);
     }
